@@ -5,16 +5,20 @@ from . import common, tlc
 
 NOMINAL = {
     'C04': [('MC_Conc', ['ReadCorrect', 'WriteAcked', 'TypeOK']), ('MC_Conc_pinned', ['ReadCorrect', 'WriteAcked', 'TypeOK'])],
-    'C05': [('MC_Crash', ['Recoverable', 'ReadCorrect', 'TypeOK']), ('MC_Crash_nopp', ['Recoverable', 'ReadCorrect', 'TypeOK'])],
-    'C06': [('MC_Crash', ['DurableVisible', 'AfterPowerLoss', 'TypeOK']), ('MC_Crash_nopp', ['DurableVisible', 'AfterPowerLoss', 'TypeOK'])],
-    'C17': [('MC_Crash', ['Recoverable', 'ReadCorrect', 'WriteAcked', 'TypeOK'])],
+    'C05': [('MC_Crash', ['Recoverable', 'ReadCorrect', 'TypeOK']), ('MC_Crash_nopp', ['Recoverable', 'ReadCorrect', 'TypeOK']),
+            ('MC_Maint', ['Recoverable', 'KeysUnique', 'Completed'])],
+    'C06': [('MC_Crash', ['DurableVisible', 'AfterPowerLoss', 'TypeOK']), ('MC_Crash_nopp', ['DurableVisible', 'AfterPowerLoss', 'TypeOK']),
+            ('MC_Maint', ['DurableVisible', 'Recoverable'])],
+    'C17': [('MC_Crash', ['Recoverable', 'ReadCorrect', 'WriteAcked', 'TypeOK']), ('MC_Maint', ['Recoverable', 'KeysUnique', 'Completed'])],
 }
 # flipping a switch must make TLC find the violation (the invariants are not vacuous)
 DEVIATIONS = {
     'C04': [('MC_Dev_NoFallback', 'ReadCorrect'), ('MC_Dev_UnlinkBeforeCommit', 'Recoverable')],
-    'C05': [('MC_Dev_UnlinkBeforeCommit', 'Recoverable'), ('MC_Dev_CommitBeforeFlush', 'Recoverable')],
-    'C06': [('MC_Dev_SkipPackFsync', 'DurableVisible'), ('MC_Dev_RenameBeforeFsync', 'DurableVisible')],
-    'C17': [('MC_Dev_CommitBeforeFlush', 'Recoverable')],
+    'C05': [('MC_Dev_UnlinkBeforeCommit', 'Recoverable'), ('MC_Dev_CommitBeforeFlush', 'Recoverable'),
+            ('MC_MaintDev_UnlinkOldFirst', 'Recoverable'), ('MC_MaintDev_SeekBack', 'Recoverable')],
+    'C06': [('MC_Dev_SkipPackFsync', 'DurableVisible'), ('MC_Dev_RenameBeforeFsync', 'DurableVisible'),
+            ('MC_MaintDev_CommitBeforeFsync', 'DurableVisible')],
+    'C17': [('MC_Dev_CommitBeforeFlush', 'Recoverable'), ('MC_MaintDev_UnlinkOldFirst', 'Recoverable')],
 }
 
 
@@ -28,7 +32,7 @@ def _run(job):
         path = os.path.join(work, cfg + '_run.cfg')
         with open(path, 'w', encoding='utf8') as handle:
             handle.write('\n'.join(lines) + '\n')
-        res = tlc.run('MC_Conc', path, workers=4, timeout=2400)
+        res = tlc.run('MC_Maint' if cfg.startswith('MC_Maint') else 'MC_Conc', path, workers=4, timeout=2400)
     return cfg, res.summary(), res.violated, bool(res.error_lines and not res.violated) or res.timeout, res.output[-1500:]
 
 
@@ -54,5 +58,5 @@ def check(report: common.Report, prop: str):
                 print(f'DESIGN-COUNTEREXAMPLE: {cfg} violates {violated} (statement about the specification Dos.tla)')
                 print(tail)
                 raise SystemExit(2)
-    report.set('design_model', {'module': 'Dos.tla', 'configs': summary,
+    report.set('design_model', {'module': 'Dos.tla + DosMaint.tla', 'configs': summary,
                                 'deviations_detected': [f'{c} -> {i}' for c, i in DEVIATIONS[prop]]})
